@@ -19,6 +19,17 @@ Theorem C36_child_except_known : forall p q parent_ops child_ops,
 Proof. exact child_safe. Qed.
 Print Assumptions C36_child_except_known.
 
+(* ... and if Pool.disconnect compares pids (read from the source: disconnect_checks_pid), the child may also call db.disconnect():
+   for EVERY sequence of child operations, disconnect() included, it touches only connection objects it created itself.
+   (As the source is now the flag is false: see Findings/C36.v, C36_refuted_child_disconnect.) *)
+Theorem C36_child_with_disconnect_if_pid_checked : forall p q parent_ops child_ops,
+  disconnect_checks_pid = true ->
+  let par := run (init p) parent_ops in
+  ccon par = None ->
+  Forall (own q) (log (run (fork par q) child_ops)).
+Proof. exact child_safe_with_disconnect. Qed.
+Print Assumptions C36_child_with_disconnect_if_pid_checked.
+
 (* the parent, at any time (fork does not change it): touches only connection objects it created; what sits in its pool and in
    its live session is its own *)
 Theorem C36_parent : forall p ops,
